@@ -62,6 +62,12 @@ Definition fbig2_try_to_float (P : enc_params) (m : mode) (s e : Z) : conv Z :=
   | FR b None => COk b
   | FR b (Some _) => if b mod 2 ^ (W P - 1) =? inf_bits P then COutOfBounds else CLossOfPrecision
   end.
+(** ... and over the conversion as it was before the repair of F38 (kept for its proved statements) *)
+Definition fbig2_try_to_float_old (P : enc_params) (m : mode) (s e : Z) : conv Z :=
+  match fbig2_to_float_old P m s e with
+  | FR b None => COk b
+  | FR b (Some _) => if b mod 2 ^ (W P - 1) =? inf_bits P then COutOfBounds else CLossOfPrecision
+  end.
 
 (** impl_from_float_for_fbig!  TryFrom<f32/f64> for Repr<2> (Repr::new normalises) and the context
     precision FBig takes from the mantissa *)
